@@ -572,7 +572,7 @@ def cells_C03(tier, consts):
         un = "linear@N=%d" % n
         uw = (1 << n) + 2 if (1 << n) + 2 > m + 2 else m + 2
         tmo = 600 if n <= 2 else 1800
-        be = (("sat", tmo), ("cadical", tmo)) if (n <= 2 and cty == "float") else (("cadical", tmo), ("sat", tmo))
+        be = (("cadical", tmo), ("sat", tmo))   # minisat is erratic on the float products; cadical is consistently faster
         cells.append(Cell("linear.at.N%d.M%d.%s.%s" % (n, m, cty, sty), un, "h_linear_at", defines=d, enforce="linear_at",
                           replace=["linear_index_helper"], unwind=uw, backends=be, object_bits=10,
                           closes_loops="unwinding to the template constants 2^N, N, M (complete)",
